@@ -109,9 +109,15 @@ impl BackwardEngine {
         let mut goal = QueryParser::parse(query_str)
             .map_err(|e| crate::errors::RuleEngineError::ParseError { message: e })?;
 
-        // Check cache if memoization enabled
+        // Check cache if memoization enabled. The verdict depends on the facts as
+        // well as on the query text, so both go into the key.
+        let cache_key = if self.config.enable_memoization {
+            Self::memo_key(query_str, facts)
+        } else {
+            String::new()
+        };
         if self.config.enable_memoization {
-            if let Some(cached) = self.goal_manager.is_cached(query_str) {
+            if let Some(cached) = self.goal_manager.is_cached(&cache_key) {
                 return Ok(if cached {
                     QueryResult::success(
                         goal.bindings.to_map(), // Convert Bindings to HashMap
@@ -159,7 +165,7 @@ impl BackwardEngine {
         // Cache result if enabled
         if self.config.enable_memoization {
             self.goal_manager
-                .cache_result(query_str.to_string(), search_result.success);
+                .cache_result(cache_key, search_result.success);
         }
 
         // Build query result
@@ -181,6 +187,18 @@ impl BackwardEngine {
         } else {
             QueryResult::failure(self.find_missing_facts(&goal), stats)
         })
+    }
+
+    /// Memoization key: the query text plus a canonical rendering of the facts the
+    /// query is asked on (taken before the search modifies them).
+    fn memo_key(query_str: &str, facts: &Facts) -> String {
+        let mut entries: Vec<String> = facts
+            .get_all_facts()
+            .iter()
+            .map(|(k, v)| format!("{}={:?}", k, v))
+            .collect();
+        entries.sort();
+        format!("{}\u{1f}{}", query_str, entries.join("\u{1f}"))
     }
 
     /// Find all candidate rules that could prove a goal
